@@ -292,8 +292,13 @@ func c03ctl(p *Program, r *Report, rule string) {
 		},
 		Oracle: func(v Valuation) []string {
 			n := v.Int("header.payloadLength")
-			if n < 0 || n > 125 || !v.Bool("header.fin") {
+			if n > 125 || !v.Bool("header.fin") {
 				return []string{"REJECT-1002-BEFORE-READ"}
+			}
+			if n < 0 {
+				// a negative length never reaches handleControl: readFrameHeader rejects it (C03.hdr / C04.hdr decide that);
+				// a second test here is allowed, not required
+				return []string{"REJECT-1002-BEFORE-READ", "READ"}
 			}
 			return []string{"READ"}
 		},
